@@ -14,7 +14,8 @@ RULE = (
     "Gaussian jitter sigma in {0, 0.01, 0.05, 0.2} A, residue thinning and atom thinning; (c) mini-structures of 2-4 "
     "neighbouring residues of a corpus file, each residue moved by an independent small rigid perturbation "
     "(translation <=1.5 A, rotation <=30 deg) so that H-bond distances, normal angles and the cis/trans torsion "
-    "sweep across their thresholds. Oracle: independent O(n^2) reference (own donor/acceptor/edge tables, own "
+    "sweep across their thresholds; (d) STEERED pairs: one donor-acceptor (or base-donor to phosphate / ribose oxygen) "
+    "distance between two neighbouring corpus residues put by construction at 4.0 A +- {1e-5 .. 0.1}. Oracle: independent O(n^2) reference (own donor/acceptor/edge tables, own "
     "normals, angles, dihedral, three-valued at 1e-6): soundness (>=2 distinct possibly-true contacts on the named "
     "edges, O2' accepted as support; cis/trans == |C1'-N-N-C1'| < 90), edge exclusivity, completeness (>=2 "
     "certainly-true base-to-base contacts on an edge combination => reported with that class or an edge slot taken). "
@@ -144,6 +145,24 @@ def load_case(case):
         return corpus.structure(case["file"])
     if kind == "mini":
         return gen3d.build_mini(case)
+    if kind == "steered-stack":
+        return gen3d.build_steered_stack(case)
+    if kind == "steered-hbond":
+        info = {}
+        s3 = gen3d.build_steered_hbond(case, info)
+        if info.get("steered_atoms"):
+            # self-check: the steered distance sits where it was put
+            i, n1, j, n2 = info["steered_atoms"]
+            rr = {r.idx: r for r in __import__("rnaverif.geomref", fromlist=["x"]).from_structure3d(s3)}
+            ids = sorted(rr)
+            a = rr[ids[0] if i < j else ids[1]].atoms[n1]
+            b = rr[ids[1] if i < j else ids[0]].atoms[n2]
+            got = float(np.linalg.norm(a - b))
+            want = 4.0 + case["side"] * case["delta"]
+            if abs(got - want) > 1e-9:
+                raise HarnessError(f"steered distance is {got!r}, intended {want!r}")
+        case["_steer_skipped"] = bool(info.get("steer_skipped"))
+        return s3
     if kind == "moved":
         s3 = corpus.structure(case["file"])
         R = np.array(case["rot"], dtype=float)
@@ -219,11 +238,13 @@ def plan(tier, seed):
             specs.append({"kind": "files", "files": [f]})
         specs += [{"kind": "moved", "files": corpus.SMALL[:8], "examples": 20, "seed": seed * 1000 + k} for k in range(12)]
         specs += [{"kind": "mini", "files": corpus.SMALL[:8] + ["1ehz-assembly-1.cif"], "examples": 400, "seed": seed * 1000 + 50 + k} for k in range(16)]
+        specs += [{"kind": "steered-hbond", "files": corpus.SMALL[:8] + ["1ehz-assembly-1.cif"], "examples": 150, "seed": seed * 1000 + 300 + k} for k in range(8)]
     else:
         for f in corpus.all_files():
             specs.append({"kind": "files", "files": [f]})
         specs += [{"kind": "moved", "files": corpus.SMALL + corpus.MEDIUM[:5], "examples": 250, "seed": seed * 1000 + k} for k in range(16)]
         specs += [{"kind": "mini", "files": corpus.SMALL + corpus.MEDIUM, "examples": 2500, "seed": seed * 1000 + 50 + k} for k in range(16)]
+        specs += [{"kind": "steered-hbond", "files": corpus.SMALL + corpus.MEDIUM, "examples": 1500, "seed": seed * 1000 + 300 + k} for k in range(16)]
     return specs
 
 
@@ -244,10 +265,21 @@ def run_shard(spec) -> ShardResult:
     elif spec["kind"] == "mini":
         run_hypothesis(PROP_ID, gen3d.st_mini(files), oracle, seed=spec["seed"], max_examples=spec["examples"],
                        result=res, to_json=to_json, classify=classify)
+    elif spec["kind"] == "steered-hbond":
+        run_hypothesis(PROP_ID, gen3d.st_steered_hbond(files), oracle, seed=spec["seed"], max_examples=spec["examples"],
+                       result=res, to_json=to_json, classify=classify_steered)
     else:
         raise HarnessError(spec["kind"])
     res.exhaustive = False
     return res
+
+
+def classify_steered(case):
+    nt, labs = classify(case)
+    labs = list(labs) + [f"steered-{case['what']}-distance", f"delta={case['delta']:g}", "above" if case["side"] > 0 else "below"]
+    if case.get("_steer_skipped"):
+        return False, labs + ["steer-skipped"]
+    return True, labs
 
 
 def replay(case):
